@@ -3,6 +3,8 @@ from vlib import common as C
 from checks import fsmlib as F
 
 LEVEL = "proof"
+# C functions this check's models mirror (source-text fingerprints are recorded in the evidence, see translate/funchash.py)
+MODELLED_FUNCS = {'src/fs/iwfsmfile.c': ['_fsm_load_fsm_lw', '_fsm_trim_tail_lw', '_fsm_find_next_set_bit', '_fsm_find_prev_set_bit', '_fsm_set_bit_status_lw', '_fsm_init_lw', '_fsm_clear', '_fsm_close', '_fsm_put_fbk', '_fsm_del_fbk', '_fsm_blk_deallocate_lw']}
 MANIFEST = dict(
     level="proof",
     text=("Lean 4 theorems over the executable allocator model of iwfsmfile.c: the invariant `index = maximal zero runs of the bitmap` "
